@@ -16,7 +16,9 @@ A0 = {'name': 'A', 'kind': 'obj', 'bases': [], 'params': [{'name': 'a', 'type': 
 B0 = {'name': 'B', 'kind': 'obj', 'bases': [], 'params': [
     {'name': 'x', 'type': ['ref', 'A']}, {'name': 'n', 'type': 'any', 'default': ['none']}]}
 A1 = {'name': 'A', 'kind': 'obj', 'bases': [], 'params': [
-    {'name': 'a', 'type': 'str'}, {'name': 'b', 'type': 'int', 'default': ['int', 0]}],
+    {'name': 'a', 'type': 'str'}, {'name': 'b', 'type': 'int', 'default': ['int', 0]},
+    {'name': 'c', 'type': 'str', 'default': ['str', 'dflt']}],
+    'defaults_override': [['b', ['int', 0]]],       # c is deliberately not listed
     'sweeten': [['remove_defaults']]}
 COL = {'name': 'Color', 'kind': 'enum', 'members': ['red', 'green']}
 A2 = {'name': 'A', 'kind': 'obj', 'bases': [], 'extra': 'required', 'params': [
